@@ -423,6 +423,19 @@ class LazyStackedTensorDict(TensorDictBase):
         is_leaf: Callable[[Type], bool] | None = None,
     ) -> T: ...
 
+    def _flatten_keys_outplace(self, separator, is_leaf):
+        # Flatten each stacked tensordict: the entries of the result are then the
+        # source tensors themselves. The generic implementation reads the entries
+        # through items(), which stacks (i.e. copies) them.
+        return type(self)(
+            *[
+                td._flatten_keys_outplace(separator=separator, is_leaf=is_leaf)
+                for td in self.tensordicts
+            ],
+            stack_dim=self.stack_dim,
+            stack_dim_name=self._td_dim_name,
+        )
+
     @_fails_exclusive_keys
     def unflatten_keys(self, separator: str = ".", inplace: bool = False) -> T: ...
 
